@@ -15,6 +15,8 @@ open PedVerif.Subproc
 #print axioms new_loop_starts_from_initial_state
 #print axioms step_touches_one_invocation
 #print axioms no_state_between_invocations
+#print axioms no_await_while_write_end_open
+#print axioms progress_independent_of_siblings
 #print axioms childBeh_table
 #print axioms source_shape
 #print axioms join_waits
